@@ -10,6 +10,15 @@ BASELINE_OFF = ("for m in $(cat /w/out/gomods.txt); do MF=$(cd /repo/$m && . /w/
 
 # id -> (technique, level text, level note, design ref)
 CHECKS = {
+    "C13": (
+        "WriteLog.tla (coalesced log, apply, single corruptions) checked by TLC; TLC-enumerated cases replayed on real "
+        "NodeDB.GetWriteLog and storage RootCache.Apply on badger and pathbadger with TLC's accept/reject verdict as oracle",
+        "Exhaustive TLC check of the log algebra; every distinct (initial contents, batch, last op) case with every single "
+        "corruption of its log is executed against the real databases: the served log must reproduce r2, and Apply must persist "
+        "exactly when TLC says the corrupted log still yields the announced contents, leaving no root visible otherwise.",
+        "Trusted: TLC, JSON bridge, C02 (contents equality = root equality). GetWriteLog errors count as 'not served'. "
+        "Single corruptions only; small key/value universe.",
+        "DESIGN.md 4 C13"),
     "C02": (
         "TLC checks the transcribed insert/remove (MkvsTrie.tla) against the canonical trie of the contents for all histories; "
         "TLC-emitted behaviours replayed on real trees (3 backends, cache classes) comparing the real root with the hash formula "
